@@ -46,8 +46,8 @@ def gen_history(rng):
     for _ in range(nops):
         kind = rng.wpick([(8, "replace"), (1.5, "shift"), (1, "reset")])
         if kind == "replace":
-            how = rng.wpick([(6, "random"), (1, "near_dup"), (0.5, "dup"), (1, "collinear"), (0.7, "far")]) if not poised \
-                else rng.wpick([(8, "random"), (1, "far")])
+            how = rng.wpick([(6, "random"), (1, "near_dup"), (0.5, "dup"), (1, "collinear"), (0.7, "far"), (0.7, "mirror")]) \
+                if not poised else rng.wpick([(8, "random"), (1, "far"), (1, "mirror")])
             ops.append({"op": "replace", "k": rng.randrange(npt), "how": how,
                         "u": [rng.uniform(-1, 1) for _ in range(n)], "a": rng.randrange(npt), "b": rng.randrange(npt),
                         "t": rng.uniform(-1.5, 2.5), "r": rng.pick([0.25, 1.0, 2.0, 3.0])})
@@ -249,6 +249,9 @@ def _drive(h, st, pb, options, Models, log, ctx):
                 elif how == "dup":
                     other = (k + 1 + op["a"] % max(npt - 1, 1)) % npt
                     x_new = np.array(itp.point(other), dtype=float)
+                elif how == "mirror":
+                    # the mirror image of the replaced point through the base: same distance, different point
+                    x_new = 2.0 * base - itp.point(k)
                 elif how == "collinear":
                     pa, pb_ = itp.point(op["a"] % npt), itp.point(op["b"] % npt)
                     x_new = pa + op["t"] * (pb_ - pa)
@@ -292,6 +295,10 @@ def _drive(h, st, pb, options, Models, log, ctx):
             # main.py ends the run here; nothing is required of the (possibly torn) state
             st["models.ended_by_linalg"] += 1
             return []
+        except Exception as e:
+            # any other exception out of a models operation leaves the models unusable
+            return [Viol("C12", "c", "%s raised %s: %s" % (name, type(e).__name__, str(e)[:120]),
+                         key="op_raises:" + type(e).__name__)]
         if vs:
             return vs
     return []
